@@ -1,0 +1,29 @@
+//go:build verif
+
+package verifhook
+
+import "sync/atomic"
+
+// MorphFunc receives the client instance, the name of the client operation and
+// its arguments. If handled is true, the operation returns results instead of
+// talking to the chain.
+type MorphFunc func(cli any, op string, args []any) (handled bool, results []any)
+
+var morphFn atomic.Pointer[MorphFunc]
+
+// SetMorph installs (or with nil removes) the callback consulted by Morph.
+func SetMorph(f MorphFunc) {
+	if f == nil {
+		morphFn.Store(nil)
+		return
+	}
+	morphFn.Store(&f)
+}
+
+// Morph offers a chain client call to the installed monitor, if any.
+func Morph(cli any, op string, args ...any) (bool, []any) {
+	if f := morphFn.Load(); f != nil {
+		return (*f)(cli, op, args)
+	}
+	return false, nil
+}
